@@ -19,7 +19,7 @@
    of /repo (known finding, see C18_inner_sigil_annot_refuted): an annotation with an inner sigil
    (%a@b, legal in Octez) is lexed as two annotations.  Hence the main statements carry the suffix
    _partial.  (A second class, unparenthesised constant / Lambda_rec / Ticket arguments, was found
-   here and repaired in /repo by commit 107d189; the model follows the repaired is_framed.) *)
+   here and repaired in /repo by commit d644aa7; the model follows the repaired is_framed.) *)
 From Coq Require Import List ZArith Bool.
 From Coq.Strings Require Import Byte.
 From PV Require Import Base.Bytes Codec.Micheline Codec.Printer Codec.Lexer Codec.Parser.
@@ -167,7 +167,7 @@ Example C18_example_layout :
   map snd lt = fmt_tokens ex_code /\ layout_ok None lt = true /\ parse_text (render lt [FWs c_lf]) = TNode ex_code.
 Proof. vm_compute. repeat split. Qed.
 (* global-constant references, recursive-lambda and ticket literals as arguments are in the domain
-   (since /repo commit 107d189) *)
+   (since /repo commit d644aa7) *)
 Example C18_example_constant_arg :
   wf_expr (NPrim x07 [NPrim x92 [NStr [x78]] []; NPrim x98 [NSeq []] [];
                       NPrim x9d [NStr [x4b]; NPrim x62 [] []; NInt 1; NInt 1] []] []) = true.
